@@ -109,14 +109,18 @@ def replay(rec, case):
     check_bban(rec, i["cc"], i["bban"], i.get("origin", "replay"))
 
 
-def solve_for_digits(cc, bban, classes, target, rng):
-    """Change trailing characters of the BBAN (within their classes) until the canonical digits equal `target`."""
+def solve_for_digits(cc, bban, classes, target, rng, keep_kind=False):
+    """Change trailing characters of the BBAN (within their classes) until the canonical digits equal `target`.
+    keep_kind: a letter is replaced by a letter and a digit by a digit (the numeric form keeps its length)."""
     from ..gens import _CLASS_CHARS
     idx = list(range(len(bban)))
     b = list(bban)
     for _ in range(4000):
         i = rng.choice(idx[-6:])
-        b[i] = rng.choice(_CLASS_CHARS[classes[i]])
+        pool = _CLASS_CHARS[classes[i]]
+        if keep_kind:
+            pool = [c for c in pool if c.isalpha() == b[i].isalpha()] or pool
+        b[i] = rng.choice(pool)
         s = "".join(b)
         if canonical_digits(cc, s) == target:
             return s
@@ -162,6 +166,17 @@ def shard(arg):
                 rec.classes["bban-with-congruent-alias"] += 1
             rec.nt.add(hash((cc, b)))
             rec.sample("bban-alias-adjacent", {"cc": cc, "bban": b, "canonical": want, "congruent_alias_exists": alias})
+    # the same four targets on bases at the extremes of the numeric form's length (letters only / digits only / all-max): a
+    # computation that treats long numeric forms separately has its own edge remainders
+    for variant in ("letters", "digits", "max"):
+        for target in ALIAS_ADJACENT:
+            b = solve_for_digits(cc, g.bban(cc, rng, variant), cl, target, rng, keep_kind=True)
+            if b is None:
+                continue
+            check_bban(rec, cc, b, f"alias-adjacent:{target}:{variant}")
+            rec.evals += 100
+            rec.classes["bban-alias-adjacent-on-extreme-base"] += 1
+            rec.nt.add(hash((cc, b)))
     # BBANs that are themselves valid IBANs of another country (an input that is a valid instance of the neighbouring type)
     from ..gens import nested_iban_bbans
     for s_, b in nested_iban_bbans(g, cc, rng, per=2 if tier == "quick" else 10):
@@ -291,4 +306,4 @@ def run(ctx):
     size_extremes(ctx.rec, ctx.seed, ctx.tier)
     from ._configs import stage as _config_stage
     _config_stage(ctx, ['assemble'])
-    ctx.require_classes("bban-is-valid-iban-of-other-country", "bban-object-own", "bban-object-foreign", "bban-size-extreme", "bban", "bban-alias-adjacent", "bban-with-congruent-alias", "bban-zero-run", "bban-token", "bban-block-collision")
+    ctx.require_classes("bban-is-valid-iban-of-other-country", "bban-object-own", "bban-object-foreign", "bban-size-extreme", "bban", "bban-alias-adjacent", "bban-alias-adjacent-on-extreme-base", "bban-with-congruent-alias", "bban-zero-run", "bban-token", "bban-block-collision")
